@@ -13,7 +13,7 @@ import (
 func init() {
 	register("C15", Meta{
 		Explanation: "Coverage clauses of the genesis round trip (necessary conditions only): (prefix-export) every store prefix that block / message / governance processing writes and that holds state the property names (pool, outgoing txs, confirmations, vote records, every nonce, counter and height, delegate keys, token list; oracle: prices, holders, epoch, claims and attestations in progress) is read in the call closure of ExportGenesis and written in the call closure of InitGenesis; TxStatusKey / TxFeeRecordKey (query-only history, not named by the property) are reported as advisory; (field-roundtrip) every field of GenesisState / ExternalState of both modules is populated by ExportGenesis and consumed by InitGenesis; (faithful-import) an imported outgoing tx keeps its exported Sequence (it is not re-stamped), a confirmation is stored under its validator, and the imported LatestBlockHeight keeps the exported CosmosHeight.",
-		NotDecided: []string{"continuation equivalence ('reacts exactly as the original would')", "values, ordering and completeness inside each exported collection"},
+		NotDecided:  []string{"continuation equivalence ('reacts exactly as the original would')", "values, ordering and completeness inside each exported collection"},
 		Assumptions: commonAssumptions,
 	}, checkC15)
 }
